@@ -595,10 +595,13 @@ class TrajRoundTrip:
         labels = wit["labels"]
         frames = [Atoms(labels, rng.uniform(0.5, 5.5, (len(labels), 3)), ecut=1, a=8) for _ in range(2)]
         fods = [rng.uniform(0.5, 5.5, (1, 3)), rng.uniform(0.5, 5.5, (2, 3))] if wit["fods"] else None
-        with tempfile.TemporaryDirectory() as d:
-            fn = os.path.join(d, "t.traj")
-            write_traj(frames, fn, fods=fods)
-            out = read_traj(fn)
+        try:
+            with tempfile.TemporaryDirectory() as d:
+                fn = os.path.join(d, "t.traj")
+                write_traj(frames, fn, fods=fods)
+                out = read_traj(fn)
+        except Exception as e:  # noqa: BLE001
+            return True, dict(check="native write_traj -> read_traj", raised=f"{type(e).__name__}: {e}")
         bad = []
         if len(out) != 2:
             bad.append(f"{len(out)} frames")
